@@ -125,6 +125,14 @@ fn prf<'a, F: FciBuilder<'a>>(f: F) -> F {
 pub trait Visit {
     type Out;
     fn go<W: RtcpPacketWriter>(self, w: &W) -> Self::Out;
+    /// the `PacketBuilder` enum as a user holds it: a visitor may call its methods on the concrete type
+    /// (method syntax), which is where an inherent method would shadow the trait's
+    fn go_enum(self, w: &PacketBuilder<'_>) -> Self::Out
+    where
+        Self: Sized,
+    {
+        self.go(w)
+    }
 }
 
 fn rb(b: &RbSpec) -> ReportBlockBuilder {
@@ -497,40 +505,40 @@ fn with_writer_inner<V: Visit>(p: &PacketSpec, how: How, v: V) -> V::Out {
     match p {
         PacketSpec::Sr(s) => {
             if how.wrap {
-                v.go(&PacketBuilder::from(sr(s)))
+                v.go_enum(&PacketBuilder::from(sr(s)))
             } else {
                 v.go(&sr(s))
             }
         }
         PacketSpec::Rr(s) => {
             if how.wrap {
-                v.go(&PacketBuilder::from(rr(s)))
+                v.go_enum(&PacketBuilder::from(rr(s)))
             } else {
                 v.go(&rr(s))
             }
         }
         PacketSpec::Sdes(s) => match (how.owned, how.wrap) {
-            (false, true) => v.go(&PacketBuilder::from(sdes(s))),
+            (false, true) => v.go_enum(&PacketBuilder::from(sdes(s))),
             (false, false) => v.go(&sdes(s)),
-            (true, true) => v.go(&PacketBuilder::from(sdes_owned(s))),
+            (true, true) => v.go_enum(&PacketBuilder::from(sdes_owned(s))),
             (true, false) => v.go(&sdes_owned(s)),
         },
         PacketSpec::Bye(s) => match (how.owned, how.wrap) {
-            (false, true) => v.go(&PacketBuilder::from(bye(s))),
+            (false, true) => v.go_enum(&PacketBuilder::from(bye(s))),
             (false, false) => v.go(&bye(s)),
-            (true, true) => v.go(&PacketBuilder::from(bye_owned(s))),
+            (true, true) => v.go_enum(&PacketBuilder::from(bye_owned(s))),
             (true, false) => v.go(&bye_owned(s)),
         },
         PacketSpec::App(s) => {
             if how.wrap {
-                v.go(&PacketBuilder::from(app(s)))
+                v.go_enum(&PacketBuilder::from(app(s)))
             } else {
                 v.go(&app(s))
             }
         }
         PacketSpec::Unknown(s) => {
             if how.wrap {
-                v.go(&PacketBuilder::from(unknown(s)))
+                v.go_enum(&PacketBuilder::from(unknown(s)))
             } else {
                 v.go(&unknown(s))
             }
@@ -539,13 +547,13 @@ fn with_writer_inner<V: Visit>(p: &PacketSpec, how: How, v: V) -> V::Out {
             let h = fci(&s.fci);
             match (s.kind, how.fb_owned, how.wrap) {
                 (FbKind::Transport, false, false) => v.go(&tfb(s, &h)),
-                (FbKind::Transport, false, true) => v.go(&PacketBuilder::from(tfb(s, &h))),
+                (FbKind::Transport, false, true) => v.go_enum(&PacketBuilder::from(tfb(s, &h))),
                 (FbKind::Transport, true, false) => v.go(&tfb_owned(s)),
-                (FbKind::Transport, true, true) => v.go(&PacketBuilder::from(tfb_owned(s))),
+                (FbKind::Transport, true, true) => v.go_enum(&PacketBuilder::from(tfb_owned(s))),
                 (FbKind::Payload, false, false) => v.go(&pfb(s, &h)),
-                (FbKind::Payload, false, true) => v.go(&PacketBuilder::from(pfb(s, &h))),
+                (FbKind::Payload, false, true) => v.go_enum(&PacketBuilder::from(pfb(s, &h))),
                 (FbKind::Payload, true, false) => v.go(&pfb_owned(s)),
-                (FbKind::Payload, true, true) => v.go(&PacketBuilder::from(pfb_owned(s))),
+                (FbKind::Payload, true, true) => v.go_enum(&PacketBuilder::from(pfb_owned(s))),
             }
         }
         PacketSpec::Custom(c) => {
@@ -588,6 +596,28 @@ pub struct BuildObs {
     pub writes: Vec<WriteObs>,
 }
 
+/// the observation itself, as a macro so that the calls are method calls on whatever type `w` has
+macro_rules! observe_body {
+    ($self:ident, $w:ident) => {{
+        step("calculate_size");
+        let size = guard(|| werr($w.calculate_size()));
+        step("get_padding");
+        let get_padding = guard(|| $w.get_padding());
+        let n = match &size {
+            Ok(Ok(n)) => Some(*n),
+            _ => None,
+        };
+        let mut writes = Vec::new();
+        for (len, which) in ($self.plan)(n) {
+            let mut buf = prefill(len, which);
+            step("write_into");
+            let result = guard(|| werr($w.write_into(&mut buf)));
+            writes.push(WriteObs { buf_len: len, which, result, after: buf });
+        }
+        BuildObs { size, get_padding, writes }
+    }};
+}
+
 /// What to write: buffer lengths are derived from the announced size n by `plan(n)`.
 pub struct Observe<F: Fn(Option<usize>) -> Vec<(usize, bool)>> {
     pub plan: F,
@@ -596,22 +626,10 @@ pub struct Observe<F: Fn(Option<usize>) -> Vec<(usize, bool)>> {
 impl<F: Fn(Option<usize>) -> Vec<(usize, bool)>> Visit for Observe<F> {
     type Out = BuildObs;
     fn go<W: RtcpPacketWriter>(self, w: &W) -> BuildObs {
-        step("calculate_size");
-        let size = guard(|| werr(w.calculate_size()));
-        step("get_padding");
-        let get_padding = guard(|| w.get_padding());
-        let n = match &size {
-            Ok(Ok(n)) => Some(*n),
-            _ => None,
-        };
-        let mut writes = Vec::new();
-        for (len, which) in (self.plan)(n) {
-            let mut buf = prefill(len, which);
-            step("write_into");
-            let result = guard(|| werr(w.write_into(&mut buf)));
-            writes.push(WriteObs { buf_len: len, which, result, after: buf });
-        }
-        BuildObs { size, get_padding, writes }
+        observe_body!(self, w)
+    }
+    fn go_enum(self, w: &PacketBuilder<'_>) -> BuildObs {
+        observe_body!(self, w)
     }
 }
 
